@@ -119,13 +119,26 @@ package hashprefix
 // check of C11); a host that ends with none of the configured suffixes is not
 // a hash query.
 //@ ghost lastHashesOf *Storage
+// One snapshot per call: the counting pass and the writing pass of Hashes (and
+// the look-up of Matches) read the same version of the list, whatever resets
+// run concurrently.  (Safety of the index arithmetic is left to the bounded
+// check.)
 //@ func (*Storage).Hashes
-//@   modifies lastHashesOf
+//@   property C11
+//@   nosafety all
+//@   requires s != nil && s.hashSuffixes != nil
+//@   modifies lastHashesOf, ptrLoads
+//@   ghostset lastHashesOf = s
 //@   ensures lastHashesOf == s
+//@   ensures one-snapshot-of-the-list-per-call: ptrLoads <= old(ptrLoads) + 1
+//@   loop 1 invariant ptrLoads == old(ptrLoads) + 1
+//@   loop 2 invariant ptrLoads == old(ptrLoads) + 1
+//@   loop 3 invariant ptrLoads == old(ptrLoads) + 1
+//@   loop 4 invariant ptrLoads == old(ptrLoads) + 1 && fresh(hashes)
 //@ func (*Matcher).MatchByPrefix
 //@   property C11
-//@   requires m != nil && (forall k string :: has(m.storages, k) ==> m.storages[k] != nil)
-//@   modifies msHas, msSize, hexFails, lastHashesOf
+//@   requires m != nil && (forall k string :: has(m.storages, k) ==> m.storages[k] != nil && m.storages[k].hashSuffixes != nil)
+//@   modifies msHas, msSize, hexFails, lastHashesOf, ptrLoads
 //@   ensures other-names-pass-through: !matched && err == nil ==> (forall k string :: has(m.storages, k) ==> !hasSuffix(host, k))
 //@   ensures answered-from-the-storage-of-its-suffix: matched ==> err == nil && (exists k string :: has(m.storages, k) && hasSuffix(host, k) && lastHashesOf == m.storages[k])
 //@   ensures a-malformed-prefix-is-an-error-not-a-miss: hexFails > old(hexFails) ==> err != nil
